@@ -1,4 +1,5 @@
 import ShootVerif.Proofs.Cli
+import ShootVerif.Proofs.CliLocals
 /-!
 C16 — type selection and output file naming follow the command line.
 
@@ -16,7 +17,7 @@ namespace ShootVerif.Cli
     name in the list, a diagnostic is printed and no written file holds a bad name -/
 theorem C16_model_meets_spec (cmd : Cmd) (pkg : Pkg) (fl : Flags) (h : region cmd pkg fl = .WF) :
     ∃ s, spec cmd pkg fl = some s ∧ meets (run cmd pkg fl) s = true := by
-  rcases region_wf_cases h with ⟨hv, h⟩ | ⟨_, hgo, hnf⟩ | ⟨_, rfl, hl, h⟩
+  rcases region_wf_cases h with ⟨hv, h⟩ | ⟨_, hgo, hnf⟩ | ⟨_, rfl, hl, h⟩ | ⟨_, hlh, hvs, h⟩
   · exact valid_meets cmd pkg fl hv h
   · obtain ⟨bad, ns, f, _, hs, hm⟩ := named_notinfile_meets cmd pkg fl hgo hnf
     exact ⟨_, hs, hm⟩
@@ -24,6 +25,11 @@ theorem C16_model_meets_spec (cmd : Cmd) (pkg : Pkg) (fl : Flags) (h : region cm
     obtain ⟨s, hs, hm⟩ := valid_meets .new (stripNew pkg) fl (validPkg_strip hl) h
     rw [spec_new_strip] at hs
     rw [run_new_strip] at hm
+    exact ⟨s, hs, hm⟩
+  · -- any sub-command on a package whose function-local types are of a kind its walk has no eye for
+    obtain ⟨s, hs, hm⟩ := valid_meets cmd (stripLoc pkg) fl hvs h
+    rw [spec_stripLoc] at hs
+    rw [run_stripLoc cmd pkg fl hlh] at hm
     exact ⟨s, hs, hm⟩
 
 /-- the success message lists exactly the written files, in sorted order (all inputs, no side condition) -/
@@ -112,12 +118,14 @@ theorem C16_ineligible_skipped (cmd : Cmd) (pkg : Pkg) (fl : Flags) (h : region 
   -- it suffices to look at a valid package: for `new` with function-local types, the package `new` sees
   suffices H : ∀ pkg' : Pkg, validPkg pkg' = true → region cmd pkg' fl = .WF → run cmd pkg' fl = .done w l b →
       (f, t) ∈ declared pkg' → eligible cmd pkg' t = false → t.name ∉ w.flatMap (·.2) by
-    rcases region_wf_cases h with ⟨hv, _⟩ | ⟨_, hgo, hnf⟩ | ⟨_, rfl, hl, h'⟩
+    rcases region_wf_cases h with ⟨hv, _⟩ | ⟨_, hgo, hnf⟩ | ⟨_, rfl, hl, h'⟩ | ⟨_, hlh, hvs, h'⟩
     · exact H pkg hv h hr ht hne
     · obtain ⟨bad, ns, f, hm, _, _⟩ := named_notinfile_meets cmd pkg fl hgo hnf
       exact absurd hm (hmode ns (some f))
     · exact H (stripNew pkg) (validPkg_strip hl) (region_of_valid (validPkg_strip hl) h') (by rw [run_new_strip]; exact hr)
         (by rw [declared_strip]; exact ht) (by rw [eligible_new_strip]; exact hne)
+    · exact H (stripLoc pkg) hvs (region_of_valid hvs h') (by rw [run_stripLoc cmd pkg fl hlh]; exact hr)
+        (by rw [declared_stripLoc]; exact ht) (by rw [eligible_stripLoc]; exact hne)
   intro pkg hv h hr ht hne
   obtain ⟨s, hs, hmeets⟩ := C16_model_meets_spec cmd pkg fl h
   have v := validFacts hv
@@ -199,13 +207,16 @@ theorem C16_names (cmd : Cmd) (pkg : Pkg) (fl : Flags) (h : region cmd pkg fl = 
       (w = fs ∧ ∀ kv ∈ w,
         (∃ t f, kv.2 = [t] ∧ fileOf pkg' t = some f ∧ kv.1 = ⟨stem f, some (comp t)⟩) ∨
         (∃ g ∈ pkg'.map File.name, kv.1 = ⟨stem g, none⟩)) by
-    rcases region_wf_cases h with ⟨hv, _⟩ | ⟨_, hgo, hnf⟩ | ⟨_, rfl, hl, h'⟩
+    rcases region_wf_cases h with ⟨hv, _⟩ | ⟨_, hgo, hnf⟩ | ⟨_, rfl, hl, h'⟩ | ⟨_, hlh, hvs, h'⟩
     · exact H pkg hv h hr hs
     · obtain ⟨bad, ns, f, _, hs', _⟩ := named_notinfile_meets cmd pkg fl hgo hnf
       rw [hs] at hs'; cases hs'
     · have := H (stripNew pkg) (validPkg_strip hl) (region_of_valid (validPkg_strip hl) h') (by rw [run_new_strip]; exact hr)
         (by rw [spec_new_strip]; exact hs)
       simpa only [fileOf_strip, names_strip] using this
+    · have := H (stripLoc pkg) hvs (region_of_valid hvs h') (by rw [run_stripLoc cmd pkg fl hlh]; exact hr)
+        (by rw [spec_stripLoc]; exact hs)
+      simpa only [fileOf_stripLoc, names_stripLoc] using this
   intro pkg hv h hr hs
   obtain ⟨b', hr'⟩ := C16_written_eq cmd pkg fl h fs hs
   rw [hr] at hr'
@@ -222,8 +233,9 @@ theorem C16_names (cmd : Cmd) (pkg : Pkg) (fl : Flags) (h : region cmd pkg fl = 
     refine ⟨f, by simp [fileOf, findDecl_of_mem v hft], ?_⟩
     intro g hg; subst hg; simpa using hin
   have h : regionValid cmd pkg fl = .WF := by
-    rcases hwf with ⟨_, h'⟩ | ⟨hv', _⟩ | ⟨hv', _⟩
+    rcases hwf with ⟨_, h'⟩ | ⟨hv', _⟩ | ⟨hv', _⟩ | ⟨hv', _⟩
     · exact h'
+    · rw [hv] at hv'; cases hv'
     · rw [hv] at hv'; cases hv'
     · rw [hv] at hv'; cases hv'
   unfold regionValid at h
@@ -432,5 +444,39 @@ theorem C16_F_nonpkg_type_witness_predeclared :
     spec .enum wLocalPkg { types := ["int"], cmdline := "shoot enum -type=int" } = some (.rejected ["int"]) ∧
     run .enum wLocalPkg { types := ["int"], cmdline := "shoot enum -type=int" }
       = .done [(⟨"", some "_int"⟩, ["int"])] [⟨"", some "_int"⟩] false := by decide
+
+/-! ### function-local types named like the requested type (all four sub-commands) -/
+
+/-- function-local type declarations of a kind the sub-command's walk has no eye for (`harmless`: for `rest` anything but an
+    interface, for `map` anything but a struct, for `enum` anything without a basic underlying type that is no alias, for `new`
+    anything) change neither what the model does nor what the specification demands — whatever they are called, in particular
+    when they are called like the requested type, and wherever they stand -/
+theorem C16_harmless_locals_ignored (cmd : Cmd) (pkg : Pkg) (fl : Flags) (h : ∀ f ∈ pkg, localsHarmless cmd f.decls = true) :
+    run cmd (stripLoc pkg) fl = run cmd pkg fl ∧ spec cmd (stripLoc pkg) fl = spec cmd pkg fl :=
+  ⟨run_stripLoc cmd pkg fl h, spec_stripLoc cmd pkg fl⟩
+
+def wShadowPkg : Pkg :=
+  [ { name := "0early.go", comments := [],
+      decls := [.func [] [{ name := "Client", shape := .struct }, { name := "Color", shape := .struct }, { name := "Order", shape := .other }]] },
+    { name := "a.go", comments := ["//go:generate shoot rest -type=*"],
+      decls := [.types [{ name := "Client", shape := .iface [.restClient] }, { name := "Order", shape := .struct },
+                        { name := "Color", shape := .other, under := some .int }],
+                .consts [{ names := ["Red"], typ := some "Color" }]] } ]
+
+/-- a function-local struct `Client` (non-interface `Order`, struct `Color`) in a file that sorts first: the package is outside
+    `validPkg`, yet in the well-formed region for `rest` (`map`, `enum`), and the package-level type of that name is generated
+    into the file named after ITS source file — in every selection mode -/
+example : validPkg wShadowPkg = false ∧
+    region .rest wShadowPkg { types := ["Client"], cmdline := "shoot rest -type=Client" } = .WF ∧
+    run .rest wShadowPkg { types := ["Client"], cmdline := "shoot rest -type=Client" }
+      = .done [(⟨"a", some "client"⟩, ["Client"])] [⟨"a", some "client"⟩] false ∧
+    region .rest wShadowPkg { types := ["*"], cmdline := "shoot rest -type=*" } = .WF ∧
+    run .rest wShadowPkg { types := ["*"], cmdline := "shoot rest -type=*" } = .done [(⟨"a", none⟩, ["Client"])] [⟨"a", none⟩] false ∧
+    region .rest wShadowPkg { file := "a.go", sep := true, cmdline := "shoot rest -file=a.go -sep" } = .WF ∧
+    region .map wShadowPkg { types := ["Order"], cmdline := "shoot map -type=Order" } = .Out ∧     -- (local STRUCTS: not harmless for map)
+    region .map ({ name := "0early.go", comments := [], decls := [.func [] [{ name := "Order", shape := .other }]] } :: wShadowPkg.drop 1)
+      { types := ["Order"], cmdline := "shoot map -type=Order" } = .WF ∧
+    region .enum wShadowPkg { types := ["Color"], cmdline := "shoot enum -type=Color" } = .WF ∧
+    region .new wShadowPkg { types := ["Order"], cmdline := "shoot new -type=Order" } = .WF := by decide
 
 end ShootVerif.Cli
